@@ -300,6 +300,7 @@ def run(ctx):
     for t in range(nt):
         traces.append(random_history(rnd, "h%d" % t, rnd.randrange(4, 10), rnd.randrange(1, 5), rnd.randrange(ln // 2, ln + 1),
                                      extra_output=(t % 3 == 0)))
+    traces.append(random_history(rnd, "h-large", 265, 3, 320 if q else 600))       # scale: positions above 255
     for tr in traces:
         for i, e in enumerate(tr["events"]):
             ctx.count_case((tr["id"], i, repr(e)))
